@@ -542,9 +542,11 @@ class Image:
             "origin": self.origin,
             "series": self.series,
             "scalar": self.scalar,
-            "date": self.date,
+            # NOTE: Lists of dates and times are copied; images created from the metadata
+            # (sub-images, results of arithmetics) must not share them with this image.
+            "date": list(self.date) if isinstance(self.date, list) else self.date,
             "reference_date": self.reference_date,
-            "time": self.time,
+            "time": list(self.time) if isinstance(self.time, list) else self.time,
             "name": self.name,
         }
         return copy.copy(metadata)
@@ -824,8 +826,10 @@ class Image:
         if not (isinstance(scalar, float) or isinstance(scalar, int)):
             raise ValueError
 
+        # NOTE: Not in-place; the product follows the type promotion of arrays, e.g., an
+        # integer-typed image times a float is a float-typed image.
         result_image = self.copy()
-        result_image.img *= scalar
+        result_image.img = self.img * scalar
         return result_image
 
     __rmul__ = __mul__
